@@ -58,14 +58,22 @@ def _own_nodes(fn):
             stack.append(c)
 
 
+HELPERS = {}        # private module-level / nested helper name -> {"returns_owned": bool, "mutates": {parameter index, ...}}
+                    # (filled by analyse(): such a helper is judged at its CALL SITES, see _private_helper)
+
+
+def _call_returns_owned(e):
+    return isinstance(e, ast.Call) and isinstance(e.func, ast.Name) and HELPERS.get(e.func.id, {}).get("returns_owned", False)
+
+
 def _is_fresh_expr(e, fresh_names):
     if isinstance(e, (ast.List, ast.ListComp, ast.Dict, ast.DictComp, ast.Set, ast.SetComp, ast.Tuple, ast.Constant,
                       ast.JoinedStr, ast.GeneratorExp)):
         return True
     if isinstance(e, ast.Call):
         # a call returns a new object unless it is a bare attribute read in disguise; function-return aliasing
-        # is excluded separately (no function returns an operand-owned list)
-        return True
+        # is excluded separately (no PUBLIC function returns an operand-owned list; a private helper that does is known by name)
+        return not _call_returns_owned(e)
     if isinstance(e, ast.BinOp):
         return True             # list + list, str * int ... build new objects
     if isinstance(e, ast.Name):
@@ -191,6 +199,13 @@ def analyse_function(qual, cls, fn):
                 continue
             if not receiver_ok(recv):
                 problems.append(f"line {n.lineno}: in-place .{n.func.attr}() on {ast.unparse(recv)}, not a fresh local")
+        # calls of private helpers that change one of their parameters in place: the argument must be a fresh local here
+        if isinstance(n, ast.Call) and isinstance(n.func, ast.Name) and HELPERS.get(n.func.id, {}).get("mutates"):
+            for k in HELPERS[n.func.id]["mutates"]:
+                if k < len(n.args) and not isinstance(n.args[k], ast.Starred) and not receiver_ok(n.args[k]) \
+                        and not _is_fresh_expr(n.args[k], fresh_names):
+                    problems.append(f"line {n.lineno}: {ast.unparse(n.args[k])} is handed to {n.func.id}(), which changes that argument in place, "
+                                    "and is not a fresh local")
         # returns of operand-owned lists
         if isinstance(n, ast.Return) and n.value is not None and _is_owned_read(n.value) and \
                 not (fn.name in ("atts", "s") and cls == "Chunk"):
@@ -198,8 +213,45 @@ def analyse_function(qual, cls, fn):
     return problems
 
 
+def summarise_helper(fn):
+    """what a private helper does that matters to its callers: does it return an operand-owned object (or one of its parameters'
+    containers), which positional parameters does it change in place"""
+    params, _ = _params(fn)
+    mut, ret = set(), False
+    for n in _own_nodes(fn):
+        tg = []
+        if isinstance(n, ast.Assign):
+            tg = n.targets
+        elif isinstance(n, (ast.AugAssign, ast.AnnAssign)):
+            tg = [n.target]
+        elif isinstance(n, ast.Delete):
+            tg = n.targets
+        for t in tg:
+            for e in ([t] if not isinstance(t, (ast.Tuple, ast.List)) else t.elts):
+                if isinstance(e, ast.Subscript) and isinstance(e.value, ast.Name) and e.value.id in params:
+                    mut.add(params.index(e.value.id))
+        if isinstance(n, ast.AugAssign) and isinstance(n.target, ast.Name) and n.target.id in params:
+            mut.add(params.index(n.target.id))
+        if isinstance(n, ast.Call) and isinstance(n.func, ast.Attribute) and n.func.attr in MUTATORS and \
+                isinstance(n.func.value, ast.Name) and n.func.value.id in params:
+            mut.add(params.index(n.func.value.id))
+        if isinstance(n, ast.Call) and isinstance(n.func, ast.Name) and HELPERS.get(n.func.id, {}).get("mutates"):
+            for k in HELPERS[n.func.id]["mutates"]:
+                if k < len(n.args) and isinstance(n.args[k], ast.Name) and n.args[k].id in params:
+                    mut.add(params.index(n.args[k].id))
+        if isinstance(n, ast.Return) and n.value is not None and (_is_owned_read(n.value) or _reads_owned(n.value)):
+            ret = True
+    return {"returns_owned": ret, "mutates": mut}
+
+
 def _is_owned_read(e):
-    return isinstance(e, ast.Attribute) and e.attr in ("chunks", "_atts", "rows")
+    return (isinstance(e, ast.Attribute) and e.attr in ("chunks", "_atts", "rows")) or _call_returns_owned(e)
+
+
+def _private_helper(qual, cls, fn):
+    """a module-level or nested function with a private name: not part of the public behaviour by itself - what it does to its
+    parameters and what it returns is judged where it is CALLED (the caller's argument may be a fresh local or an operand's list)"""
+    return cls is None and fn.name.startswith("_") and not fn.name.startswith("__")
 
 
 def _reads_owned(e):
@@ -223,8 +275,23 @@ def analyse(path):
     tree = ast.parse(open(path).read())
     out = []
     classes = {n.name: n for n in tree.body if isinstance(n, ast.ClassDef)}
-    for qual, cls, fn in _functions(tree):
+    funcs = list(_functions(tree))
+    HELPERS.clear()
+    for _ in range(3):          # helpers calling helpers: a short fixpoint
+        for qual, cls, fn in funcs:
+            if _private_helper(qual, cls, fn):
+                HELPERS[fn.name] = summarise_helper(fn)
+    for qual, cls, fn in funcs:
         probs = analyse_function(qual, cls, fn)
+        if _private_helper(qual, cls, fn):
+            # what the summary carries to the call sites is not a finding here
+            sm = HELPERS.get(fn.name, {})
+            params, _ = _params(fn)
+            names = {params[k] for k in sm.get("mutates", ()) if k < len(params)}
+            probs = [p_ for p_ in probs
+                     if not ("returns the operand-owned object" in p_ and sm.get("returns_owned"))
+                     and not any((f" on {nm}," in p_ or f" on {nm}, " in p_ or p_.endswith(f" on {nm}, not a fresh local")
+                                  or f"in-place += on {nm}," in p_) for nm in names)]
         hard = [p for p in probs if not p.startswith("UNDECIDED")]
         out.append((f"frame.{qual}", qual, (not probs) if not probs or hard else None, "; ".join(probs)))
     # F3 sealed attributes
